@@ -276,6 +276,20 @@ func jxAttrsReserved(t *simrt.Tape, reserved []string) map[string]interface{} {
 	return m
 }
 
+// jxAttrsAlso is jxAttrs plus, one time in three, an attribute whose name is a
+// fixed field of a SIBLING type but an ordinary attribute for this one
+// ("source" on a node, "parent" on an edge): it must survive like any other.
+func jxAttrsAlso(t *simrt.Tape, legit []string) map[string]interface{} {
+	m := jxAttrs(t)
+	if t.Choose(simrt.KWorkload, 3) == 2 {
+		if m == nil {
+			m = map[string]interface{}{}
+		}
+		m[legit[t.Choose(simrt.KValue, len(legit))]] = jxVal(t, 1)
+	}
+	return m
+}
+
 func jxOpt(t *simrt.Tape, n int) bool { return t.Choose(simrt.KWorkload, n) == n-1 }
 
 func jxCytoPos(t *simrt.Tape) *cytoscapejs.Position {
@@ -373,7 +387,7 @@ func jxRunCytoscape(c *Ctx) *Violation {
 	case 1:
 		g := &cytoscapejs.GraphNodeEdge{}
 		for i := 0; i < nn; i++ {
-			n := cytoscapejs.Node{Data: cytoscapejs.NodeData{ID: jxID(t, jxJSONStrings, i), Attributes: jxAttrs(t)},
+			n := cytoscapejs.Node{Data: cytoscapejs.NodeData{ID: jxID(t, jxJSONStrings, i), Attributes: jxAttrsAlso(t, []string{"source", "target"})},
 				Position: jxCytoPos(t), RenderedPosition: jxCytoPos(t), Selected: jxOpt(t, 4), Selectable: jxOpt(t, 4), Locked: jxOpt(t, 6), Grabbable: jxOpt(t, 6), Scratch: jxScratch(t)}
 			if jxOpt(t, 3) {
 				n.Data.Parent = jxID(t, jxJSONStrings, 0)
@@ -384,7 +398,7 @@ func jxRunCytoscape(c *Ctx) *Violation {
 			g.Elements.Nodes = append(g.Elements.Nodes, n)
 		}
 		for i := 0; i < ne; i++ {
-			e := cytoscapejs.Edge{Data: cytoscapejs.EdgeData{ID: jxID(t, jxJSONStrings, nn+i), Source: jxID(t, jxJSONStrings, 0), Target: jxID(t, jxJSONStrings, 1), Attributes: jxAttrs(t)},
+			e := cytoscapejs.Edge{Data: cytoscapejs.EdgeData{ID: jxID(t, jxJSONStrings, nn+i), Source: jxID(t, jxJSONStrings, 0), Target: jxID(t, jxJSONStrings, 1), Attributes: jxAttrsAlso(t, []string{"parent"})},
 				Selected: jxOpt(t, 4), Selectable: jxOpt(t, 4), Scratch: jxScratch(t)}
 			if jxOpt(t, 4) {
 				e.Classes = jxStr(t, jxJSONStrings)
